@@ -50,6 +50,8 @@ def case(ctx, rnd, i):
     from prosemirror.transform import AddMarkStep, RemoveMarkStep, ReplaceStep, Transform
 
     sch = schemas.get(rnd.choice(schemas.TOTALITY))
+    if rnd.random() < 0.15:
+        sch = schemas.mark_schema(rnd) or sch  # inline node with content, dense mark exclusion
     stepmon.register(sch)
     S, rs, leaf = sch.schema, sch.ref, sch.leaf
     g = gen.DocGen(sch, rnd, wide=0.1, mark_p=0.3)
